@@ -213,23 +213,28 @@ def injectHtmlAttributes (tag : Str) (consume : Bool := true) : M Str := do
     modify fun s => { s with classes := [], id := [], css := [], attributes := [] }
   return result
 
-/-- `blockattributes.slugify(text)`; the suffix search needs at most `|ids| + 1` steps. -/
-def slugify (text : Str) : M Str := do
+/-- the slug before it is made unique: non-word runs become dashes, dashes are merged and trimmed, lower-cased,
+    `x` if nothing is left -/
+def slugBase (text : Str) : Str :=
   let slug := Gen.P.blockattributes_slugify_0.sub text fun _ => "-".toList
   let slug := Gen.P.blockattributes_slugify_1.sub slug fun _ => "-".toList
   let slug := Gen.P.blockattributes_slugify_2.sub slug fun _ => []
   let slug := lower slug
-  let slug := if slug == [] then "x".toList else slug
+  if slug == [] then "x".toList else slug
+
+/-- the `while f'{slug}-{i}' in ids` loop of `slugify`; it needs at most `|ids| + 1` steps -/
+def slugSuffix (ids : List Str) (slug : Str) : Nat → Nat → M Str
+  | 0, _ => raise .outOfFuel
+  | fuel+1, i =>
+    if ids.contains (slug ++ "-".toList ++ natToStr i) then slugSuffix ids slug fuel (i + 1)
+    else pure (slug ++ "-".toList ++ natToStr i)
+
+/-- `blockattributes.slugify(text)` -/
+def slugify (text : Str) : M Str := do
+  let slug := slugBase text
   let ids := (← get).ids
-  if ids.contains slug then
-    suffix ids slug (ids.length + 2) 2
+  if ids.contains slug then slugSuffix ids slug (ids.length + 2) 2
   else return slug
-where
-  suffix (ids : List Str) (slug : Str) : Nat → Nat → M Str
-    | 0, _ => raise .outOfFuel
-    | fuel+1, i =>
-      if ids.contains (slug ++ "-".toList ++ natToStr i) then suffix ids slug fuel (i + 1)
-      else pure (slug ++ "-".toList ++ natToStr i)
 
 /-! ## delimitedblocks.setDefinition, options.setOption -/
 
@@ -503,8 +508,9 @@ def closeOf (delim : Str) : Pat :=
 def blockNamesWithUnterminated : List Str :=
   ["code".toList, "comment".toList, "division".toList, "quote".toList]
 
-/-- The body of `delimitedblocks.render` once definition `d` has matched and been verified. -/
-def renderBlock (rec : Rec) (env : Env) (d : BlockDef) (mt : Match) (reader : Reader) (writer : Writer) :
+/-- The body of `delimitedblocks.render` once definition `d` has matched and been verified, up to (not including)
+    the final reset of the consumed block options. -/
+def renderBlockBody (rec : Rec) (env : Env) (d : BlockDef) (mt : Match) (reader : Reader) (writer : Writer) :
     M (Reader × Writer) := do
   -- Process opening delimiter.
   let (delimiterText, closeMatch) ← match d.delimiterFilter with
@@ -548,8 +554,14 @@ def renderBlock (rec : Rec) (env : Env) (d : BlockDef) (mt : Match) (reader : Re
       let w := ((writer.write opentag).write text3).write closetag
       pure (if !reader.eof && (opentag ++ text3 ++ closetag) != [] then w.write "\n".toList else w)
     else pure writer
-  modify fun s => { s with opts := {} }
   return (reader, writer)
+
+/-- `renderBlockBody`, then `blockattributes.opts = Expand()` (always, skipped or not). -/
+def renderBlock (rec : Rec) (env : Env) (d : BlockDef) (mt : Match) (reader : Reader) (writer : Writer) :
+    M (Reader × Writer) := do
+  let r ← renderBlockBody rec env d mt reader writer
+  modify fun s => { s with opts := {} }
+  return r
 
 /-- The `for d in defs` loop of `delimitedblocks.render`. -/
 def delimitedGo (rec : Rec) (env : Env) (allowed : List Str) :
